@@ -2,6 +2,13 @@
 """tools/seed_table.py: the table of seeded changes for DESIGN.md section 0.5, from seeded/*/meta.json."""
 import json, os, re
 NOTES = {
+ 'C05-9': 'missed -> Parser(head) followed by feed(tail) / feed_byte for every cut and container type',
+ 'C05-10': 'caught by disagreement only -> ParserQueue compared with a parser fed the same chunks (put() messages in place); lone one-byte chunks generated',
+ 'C09-10': 'missed -> every encoded meta message is also read from a track, with clip off and on',
+ 'C11-10': 'infrastructure error (close() raising inside the harness\'s own clean-up) -> guarded; autoreset oracle for the IOPort wrapper',
+ 'C12-9': 'missed -> the same message object at several places of the input (MidiTrack([m]) * k, a frozen message shared by tracks)',
+ 'C16-10': 'missed -> observe / edit a value in place / observe as one step of the histories; directed tempo-edit cases',
+ 'C18-10': 'missed (the scheduled runs replace the readiness test) -> unscheduled loop-back connections with the module\'s own readiness test, orderly close and reset',
  'C10-7': 'caught by disagreement only -> per-receiver order oracle; the three-in-a-row fan-in program explored with two preemptions',
  'C11-8': 'caught by disagreement only -> oracle: a sub-port that closed itself during a poll holds nothing back from the MultiPort',
  'C19-7': 'caught by disagreement only -> oracle: two-digit hex separated by any str.isspace() character must be read',
